@@ -292,8 +292,18 @@ func (c *Client) BlockchainInfo(ctx context.Context, minHeight, maxHeight int64)
 	// Verify each of the BlockMetas against a light block verified for its
 	// own height (the metas come highest height first; heights the light
 	// client has not visited yet are verified on demand).
-	for _, meta := range res.BlockMetas {
+	for i, meta := range res.BlockMetas {
 		height := meta.Header.Height
+		// The metas must be the ones asked for: inside the requested bounds (0
+		// stands for "no bound") and consecutive, highest first.
+		if height < minHeight || (maxHeight > 0 && height > maxHeight) {
+			return nil, fmt.Errorf("block meta for height %d is outside of the requested heights %d..%d",
+				height, minHeight, maxHeight)
+		}
+		if i > 0 && height != res.BlockMetas[i-1].Header.Height-1 {
+			return nil, fmt.Errorf("block meta for height %d follows the one for height %d",
+				height, res.BlockMetas[i-1].Header.Height)
+		}
 		h, err := c.updateLightClientIfNeededTo(ctx, &height)
 		if err != nil {
 			return nil, fmt.Errorf("trusted header %d: %w", meta.Header.Height, err)
@@ -301,6 +311,11 @@ func (c *Client) BlockchainInfo(ctx context.Context, minHeight, maxHeight int64)
 		if bmH, tH := meta.Header.Hash(), h.Hash(); !bytes.Equal(bmH, tH) {
 			return nil, fmt.Errorf("block meta header %X does not match with trusted header %X",
 				bmH, tH)
+		}
+		// The verified commit signs the whole block id, part-set header included.
+		if !meta.BlockID.PartSetHeader.Equals(h.Commit.BlockID.PartSetHeader) {
+			return nil, fmt.Errorf("block meta id %v does not match with trusted block id %v",
+				meta.BlockID, h.Commit.BlockID)
 		}
 	}
 
